@@ -105,7 +105,7 @@ def run(ctx):
         if c not in seen:
             seen.add(c); uniq.append(c)
     lines = [c.hex() for c in uniq]
-    impl = ctx.run_lines_robust(h, ["deser"], lines, env={"HARNESS_LINE_TIMEOUT_S": "6", "VERIF_MEM_LIMIT_GB": "4"})
+    impl = ctx.run_lines_robust(h, ["deser"], lines, env={"HARNESS_LINE_TIMEOUT_S": "6", "VERIF_MEM_LIMIT_GB": "4"}, workers=6)
     model = ctx.run_lines(core.DRIVER, ["serde"], lines, timeout=1500)[1]
     dist = {}
     resave, ridx = [], []
